@@ -124,6 +124,20 @@ func fieldOf(info *types.Info, e ast.Expr) (*ast.SelectorExpr, *types.Var) {
 	return se, v
 }
 
+// mutableGlobals: package-level variables that are assigned inside some function body
+// ("pkgpath.Name"); kept across the packages of one vinstr run (dependency order).
+var mutableGlobals = map[string]bool{}
+
+func globalVarOf(info *types.Info, id *ast.Ident) *types.Var {
+	v, ok := info.Uses[id].(*types.Var)
+	if !ok || v.IsField() || v.Pkg() == nil || v.Parent() != v.Pkg().Scope() {
+		return nil
+	}
+	return v
+}
+
+func globalKey(v *types.Var) string { return v.Pkg().Path() + "." + v.Name() }
+
 func collectMutableFields(f *ast.File, info *types.Info, m map[*types.Var]bool) {
 	ast.Inspect(f, func(n ast.Node) bool {
 		switch x := n.(type) {
@@ -131,6 +145,11 @@ func collectMutableFields(f *ast.File, info *types.Info, m map[*types.Var]bool) 
 			for _, l := range x.Lhs {
 				if _, v := fieldOf(info, l); v != nil {
 					m[v] = true
+				}
+				if id, ok := l.(*ast.Ident); ok && x.Tok != token.DEFINE {
+					if v := globalVarOf(info, id); v != nil {
+						mutableGlobals[globalKey(v)] = true
+					}
 				}
 			}
 		case *ast.IncDecStmt:
@@ -190,9 +209,31 @@ func (r *rewriter) readsIn(e ast.Expr, out *[]ast.Stmt) {
 					*out = append(*out, r.accessStmt(se, id, false))
 				}
 			}
+			// pkg.Var of another instrumented package
+			if pid, ok := x.X.(*ast.Ident); ok {
+				if _, isPkg := r.info.Uses[pid].(*types.PkgName); isPkg {
+					if v := globalVarOf(r.info, x.Sel); v != nil && mutableGlobals[globalKey(v)] {
+						*out = append(*out, r.globalStmt(&ast.SelectorExpr{X: ast.NewIdent(pid.Name), Sel: ast.NewIdent(x.Sel.Name)}, false))
+					}
+					return false
+				}
+			}
+		case *ast.Ident:
+			if v := globalVarOf(r.info, x); v != nil && mutableGlobals[globalKey(v)] {
+				*out = append(*out, r.globalStmt(ast.NewIdent(x.Name), false))
+			}
 		}
 		return true
 	})
+}
+
+// globalStmt: quiet (non-scheduling) access to a package-level variable: vs.RQ(&X) / vs.WQ(&X)
+func (r *rewriter) globalStmt(e ast.Expr, write bool) ast.Stmt {
+	fn := "RQ"
+	if write {
+		fn = "WQ"
+	}
+	return &ast.ExprStmt{X: call(vsel(fn), &ast.UnaryExpr{Op: token.AND, X: e})}
 }
 
 func (r *rewriter) collectAccesses(list []ast.Stmt) {
@@ -216,6 +257,11 @@ func (r *rewriter) collectAccesses(list []ast.Stmt) {
 					if ix, ok := l.(*ast.IndexExpr); ok {
 						r.readsIn(ix.X, &pre)
 						r.readsIn(ix.Index, &pre)
+					}
+					if id, ok := l.(*ast.Ident); ok && x.Tok != token.DEFINE {
+						if v := globalVarOf(r.info, id); v != nil && mutableGlobals[globalKey(v)] {
+							pre = append(pre, r.globalStmt(ast.NewIdent(id.Name), true))
+						}
 					}
 				}
 			case *ast.IncDecStmt:
